@@ -143,6 +143,9 @@ func VxC10Trie2ProofSoundness() {
 // answers with. Under the ideal-hash model an accepted response establishes that the key holds the claimed
 // value in the honest trie; in particular an inner node's hash cannot be passed off as a leaf (an edge whose
 // child is a value node above the leaf level hashes like the edge to the subtree).
+// (The heaviest harness of the property: 1300 paths with proof-sized hash terms; on a loaded machine it needs
+// more than the default 900 s budget.)
+//vx:max-seconds 2400
 func VxC10Trie2SingleElementRangeSoundness() {
 	ds := []uint{250}
 	if vx.Thorough() {
